@@ -230,8 +230,8 @@ std::string hostile_login_reply(Rng &r)
 	};
 	auto near_ip = [&]() {
 		// spellings close to a dotted quad: what a lenient parser (inet_addr, sscanf %d) accepts and a strict one must not
-		static const char *odd[] = {"010.1.1.1", "10.1.1.1 ", " 10.1.1.1", "+10.1.1.1", "10.1.1.1.", "0x0a.1.1.1", "10.1.1.256", "10.1.1.04", "10.1.1", "10.1.1.1/8", "10.1.1.1\t", "10.01.1.1", "10.1.1.-1", "10.1.1.1e0", "1.1.1.1,2", "10.1.1.0x1", "00010.1.1.1", "10..1.1", ".10.1.1.1", "10.1.1.1\r"};
-		if (r.chance(0.5)) return std::string(odd[r.range(0, 19)]);
+		static const char *odd[] = {"010.1.1.1", "10.1.1.1 ", " 10.1.1.1", "+10.1.1.1", "10.1.1.1.", "0x0a.1.1.1", "10.1.1.256", "10.1.1.04", "10.1.1", "10.1.1.1/8", "10.1.1.1\t", "10.01.1.1", "10.1.1.-1", "10.1.1.1e0", "1.1.1.1,2", "10.1.1.0x1", "00010.1.1.1", "10..1.1", ".10.1.1.1", "10.1.1.1\r", "99999999999.1.1.1", "10.1.1.4294967297", "10.1.18446744073709551617.1", "2147483648.1.1.1"};
+		if (r.chance(0.5)) return std::string(odd[r.range(0, 23)]);
 		return std::to_string(r.range(0, 255)) + "." + std::to_string(r.range(0, 255)) + "." + std::to_string(r.range(0, 255)) + "." + std::to_string(r.range(0, 255));
 	};
 	if (r.chance(0.3)) return near_ip() + "-" + near_ip() + "-" + field_num() + "-" + field_num();
